@@ -480,7 +480,25 @@ fn gen_query(rng: &mut Rng, lang: &Language, tree: &Tree, text: &[u8]) -> Option
         } else {
             g.pat(rng, &node, depth.max(if node.child_count() > 0 { 1 } else { 0 }))?
         };
-        let body = format!("{body} @r");
+        // non-rooted (top-level sibling group) patterns: `((A) @r [.] (B) @c1)` — they start on every
+        // node whose PARENT intersects the range; @r is on the first sibling
+        let pairs: Vec<&&Node> = named.iter().filter(|n| n.named_child_count() >= 2 && !n.is_error()).collect();
+        let body = if !pairs.is_empty() && rng.chance(1, 6) {
+            let p = **rng.pick(&pairs);
+            let mut cur = p.walk();
+            let kids: Vec<Node> = p.named_children(&mut cur).filter(|k| !k.is_error() && !k.is_missing()).collect();
+            if kids.len() >= 2 {
+                let i = rng.below(kids.len() - 1);
+                let j = if rng.chance(2, 3) { i + 1 } else { rng.range(i + 1, kids.len() - 1) };
+                g.used_caps.push("c1".to_string());
+                g.used_caps.dedup();
+                format!("({}) @r{} ({}) @c1", kids[i].kind(), if rng.chance(1, 2) { " ." } else { "" }, kids[j].kind())
+            } else {
+                format!("{body} @r")
+            }
+        } else {
+            format!("{body} @r")
+        };
         // predicates
         let mut preds = String::new();
         let mut caps = g.used_caps.clone();
